@@ -30,21 +30,39 @@ fn check_case(c: &Case) -> Outcome {
         Ok(t) => t,
         Err(e) => return Outcome::Fail(format!("serialization failed: {e}")),
     };
+    if let Err(m) = judge(c, &text) {
+        return Outcome::Fail(m);
+    }
+    // the same value through sequences and maps that announce no length (`serialize_seq(None)`:
+    // what `collect_seq` over a filtering iterator or a hand-written impl does)
+    let text2 = match ds::with_unknown_len(|| serde_saphyr::to_string_with_options(&S(&c.ty, &c.val), c.opts.build())) {
+        Ok(t) => t,
+        Err(e) => return Outcome::Fail(format!("serialization (unknown lengths) failed: {e}")),
+    };
+    if text2 != text {
+        if let Err(m) = judge(c, &text2) {
+            return Outcome::Fail(format!("collections of unknown length: {m}"));
+        }
+    }
+    Outcome::Pass
+}
+
+fn judge(c: &Case, text: &str) -> Result<(), String> {
     // (1) a single well-formed document
-    match serde_saphyr::from_multiple::<IgnoredAny>(&text) {
+    match serde_saphyr::from_multiple::<IgnoredAny>(text) {
         Ok(v) => {
             let want = if root_is_nullish(&c.ty, &c.val) { 0 } else { 1 };
             if v.len() != want && !(want == 0 && v.len() == 1) {
-                return Outcome::Fail(format!("emitted text is {} documents, expected one (emitted {text:?})", v.len()));
+                return Err(format!("emitted text is {} documents, expected one (emitted {text:?})", v.len()));
             }
         }
-        Err(e) => return Outcome::Fail(format!("emitted text is not well-formed: {} (emitted {text:?})", e.without_snippet())),
+        Err(e) => return Err(format!("emitted text is not well-formed: {} (emitted {text:?})", e.without_snippet())),
     }
     // (2) reads back as an equal value of the same type
-    match serde_saphyr::with_deserializer_from_str(&text, |d| D(&c.ty).deserialize(d)) {
-        Ok(v) if v == c.val => Outcome::Pass,
-        Ok(v) => Outcome::Fail(format!("reads back as {v:?} (emitted {text:?})")),
-        Err(e) => Outcome::Fail(format!("emitted text is rejected: {} (emitted {text:?})", e.without_snippet())),
+    match serde_saphyr::with_deserializer_from_str(text, |d| D(&c.ty).deserialize(d)) {
+        Ok(v) if v == c.val => Ok(()),
+        Ok(v) => Err(format!("reads back as {v:?} (emitted {text:?})")),
+        Err(e) => Err(format!("emitted text is rejected: {} (emitted {text:?})", e.without_snippet())),
     }
 }
 
